@@ -7,7 +7,7 @@ import KrakenModel.Model.AgentCrash
     plan <call>…                               its recorded syscalls (`_last_access_time` payloads canonical)
     crash k=<n> ord=<files> at=<label> => fs=<tree> <restart: create result, state> | <w<i>=…> | <state>
     planchk =>                                 the plan comparison
-    op create | write <i> <xhex> | restart => <result> c=<complete> bits=<…> dl=<hex|-> ca=<hex|-> st=<hex|->
+    op create | write <i> <xhex> | restart | evict => <result> c=<complete> bits=<…> dl=<hex|-> ca=<hex|-> st=<hex|->
 -/
 open Driver KrakenModel.FS KrakenModel.AgentCrash
 
@@ -87,6 +87,7 @@ def op? (args : List String) : Option Op :=
   | ["create"] => some .create
   | ["write", i, x] => do pure (.write (← i.toNat?) (← bytes? x))
   | ["restart"] => some .restart
+  | ["evict"] => some .evict
   | _ => none
 
 /-- removal order and sidecar copy order used by a recorded plan -/
@@ -157,11 +158,18 @@ def splitBar (toks : List String) : List (List String) :=
 
 /-- the property on what the implementation reported: complete ⇒ the cached bytes are the blob; the
 cache never holds other bytes -/
-def stateMon (blobTok : String) (toks : List String) (pf : String → String → String) : List String :=
+def stateMon (cfg : Cfg) (toks : List String) (pf : String → String → String) : List String :=
+  let blobTok := bytesTok cfg.blob
   let c := (kv? toks "c").getD "-"
   let ca := (kv? toks "ca").getD "-"
+  let bits := ((kv? toks "bits").getD "-").toList
+  let dl := (bytes? ((kv? toks "dl").getD "-")).getD []
+  -- a piece the (uncommitted) torrent reports complete is served to other peers: its bytes must be the blob's
+  let badPieces := (List.range bits.length).filter fun i =>
+    bits.getD i '0' = '1' ∧ (dl.drop (i * cfg.pl)).take cfg.pl ≠ pieceOf cfg i
   (if c = "1" ∧ ca ≠ blobTok then [pf "complete-wrong-bytes" s!"the torrent reports complete but the cache holds {ca}"] else []) ++
-  (if ca ≠ "-" ∧ ca ≠ blobTok then [pf "cache-wrong-bytes" s!"the cache directory holds {ca}"] else [])
+  (if ca ≠ "-" ∧ ca ≠ blobTok then [pf "cache-wrong-bytes" s!"the cache directory holds {ca}"] else []) ++
+  (if c = "0" ∧ !badPieces.isEmpty then [pf "piece-wrong-bytes" s!"pieces {badPieces} are reported complete, the blob file holds {bytesTok dl}"] else [])
 
 def crashMon (cfg : Cfg) (sections : List (List String)) (at_ : String) : List String :=
   let pf (key detail : String) := s!"side=impl key={key}.{at_} {detail}"
@@ -172,10 +180,10 @@ def crashMon (cfg : Cfg) (sections : List (List String)) (at_ : String) : List S
   | r :: st =>
     if r.startsWith "planerr" then [] else
     if r ≠ "ok" then [pf "restart-failed" s!"CreateTorrent after the restart: {r}"] else
-    stateMon blobTok st pf ++
+    stateMon cfg st pf ++
     ((sections.getD 1 []).filter (fun t => !t.endsWith "=ok")).map (fun t => pf "finish-failed" s!"writing the missing pieces: {t}") ++
     (let fin := sections.getD 2 []
-     stateMon blobTok fin pf ++
+     stateMon cfg fin pf ++
      (if (kv? fin "c").getD "-" ≠ "1" then [pf "finish-failed" "all pieces written, the torrent is not complete"] else []))
 
 def addDirs (fs : FS Name) (p : Path) : FS Name :=
@@ -213,7 +221,7 @@ def step (s : St) (kind : String) (args impl : List String) : Option (St × Step
     let pf (key detail : String) := s!"side=impl key={key}.{args.headD ""} {detail}"
     pure ({ s with mem := r.mem, fs := fs' },
       { obs := resTok r.res :: stateToks s.cfg r.mem fs', branch := s!"{args.headD ""}.{resTok r.res}",
-        propfails := if s.mon then stateMon (bytesTok s.cfg.blob) (impl.drop 1) pf else [] })
+        propfails := if s.mon then stateMon s.cfg (impl.drop 1) pf else [] })
   | "plan" =>
     let p := modelPlan s (orderOf args) (mdOrderOf args)
     let mine := p.map callTok ++ (if allOk s.preFs p then [] else ["model-call-fails"])
